@@ -497,3 +497,87 @@ CORE_OPCODES = {
 # opcodes consensus makes the script fail unconditionally when executed (disabled / reserved / invalid)
 CORE_FAILING = [0x50, 0x62, 0x65, 0x66, 0x7e, 0x7f, 0x80, 0x81, 0x83, 0x84, 0x85, 0x86, 0x89, 0x8a, 0x8d, 0x8e, 0x95, 0x96, 0x97,
                 0x98, 0x99, 0xba, 0xff]
+
+
+# ------------------------------------------------------------------------------------------------- signature ops
+# cx.checksig(sig_item, key_item) is the signature-validity oracle (an arbitrary relation in the symbolic runs)
+
+def op_checksig(st, cx):
+    if len(st) < 2:
+        return False
+    key = st.pop()
+    sig = st.pop()
+    st.append(boolitem(cx.checksig(sig, key)))
+
+
+def op_checksigverify(st, cx):
+    if len(st) < 2:
+        return False
+    key = st.pop()
+    sig = st.pop()
+    if not cx.checksig(sig, key):
+        return False
+
+
+def _checkmultisig(st, cx):
+    """Core EvalScript OP_CHECKMULTISIG: returns None on script failure, else the success flag"""
+    i = 1
+    if len(st) < i:
+        return None
+    nkeys = num(st[-i])
+    if nkeys is None:
+        return None
+    if isinstance(nkeys, SInt):
+        nkeys = nkeys.concretize()
+    if nkeys < 0 or nkeys > 20:
+        return None
+    ikey = i + 1
+    i += 1 + nkeys
+    if len(st) < i:
+        return None
+    nsigs = num(st[-i])
+    if nsigs is None:
+        return None
+    if isinstance(nsigs, SInt):
+        nsigs = nsigs.concretize()
+    if nsigs < 0 or nsigs > nkeys:
+        return None
+    isig = i + 1
+    i += 1 + nsigs
+    if len(st) < i:
+        return None
+    ok = True
+    ks, ss = nkeys, nsigs
+    while ok and ss > 0:
+        if cx.checksig(st[-isig], st[-ikey]):
+            isig += 1
+            ss -= 1
+        ikey += 1
+        ks -= 1
+        if ss > ks:
+            ok = False
+    # pop everything incl. the extra dummy element
+    if len(st) < i:
+        return None
+    del st[-(i - 1):]
+    if len(st) < 1:
+        return None
+    st.pop()
+    return ok
+
+
+def op_checkmultisig(st, cx):
+    r = _checkmultisig(st, cx)
+    if r is None:
+        return False
+    st.append(boolitem(r))
+
+
+def op_checkmultisigverify(st, cx):
+    r = _checkmultisig(st, cx)
+    if r is None or not r:
+        return False
+
+
+for _k in ('checksig', 'checksigverify', 'checkmultisig', 'checkmultisigverify'):
+    OPS[_k] = globals()['op_' + _k]
